@@ -8,10 +8,14 @@ package managers
 //@ ghost field G.notifSyncs mathint
 
 // sync: one push-pull exchange with the server for one datatype (network; whole-replica effect)
+// sync: EVERY call leads to one exchange with the server for that datatype (no call is skipped because another one is
+// under way: the caller may be the only one that knows about newly announced operations). The exchange itself is the
+// trusted syncPushPullPacks below.
 //@ func (*DatatypeManager).sync
-//@   trusted one gRPC push-pull exchange (sync manager), arbitrary effect on the replica
 //@   mode math
-//@   ensures G.notifSyncs == old(G.notifSyncs) + 1
+//@   props C18 C05
+//@   requires data != nil
+//@   ensures[every-call-is-an-exchange] G.notifSyncs == old(G.notifSyncs) + 1
 //@   modifies *, G:notifSyncs
 
 // A notification starts a sync exactly when the datatype is behind the announced end of the log
@@ -56,5 +60,5 @@ package managers
 //@ func (*DatatypeManager).syncPushPullPacks
 //@   trusted one gRPC push-pull exchange and the application of its reply to the datatypes (arbitrary effect on the replicas)
 //@   mode math
-//@   ensures its.sema == old(its.sema)
-//@   modifies *
+//@   ensures its.sema == old(its.sema) && G.notifSyncs == old(G.notifSyncs) + 1
+//@   modifies *, G:notifSyncs
